@@ -311,7 +311,20 @@ theorem abs_arcsin_mul_le {l ε : ℝ} (h0 : 0 ≤ ε) (h1 : ε ≤ Real.pi / 2)
   · have := Real.monotone_arcsin (le_of_abs_le hb)
     rw [hε] at this; exact this
 
-theorem rise_limit_val : rise_limit = 66.55 := by unfold rise_limit; norm_num
+/-- The hour-angle cosine of the sunrise equation is below −1 as soon as latitude plus declination
+    exceed 90° + c0 (midnight sun of the point at altitude `c0`). -/
+theorem cos_om_lt_neg_one {φ δ c0 : ℝ} (hc0' : -(Real.pi / 2) ≤ c0)
+    (h1 : Real.pi / 2 + c0 < φ + δ) (h2 : φ + δ ≤ Real.pi) (hcos : 0 < Real.cos φ * Real.cos δ) :
+    (Real.sin c0 - Real.sin φ * Real.sin δ) / (Real.cos φ * Real.cos δ) < -1 := by
+  rw [div_lt_iff₀ hcos]
+  have h : Real.cos (φ + δ) < Real.cos (Real.pi / 2 + c0) :=
+    Real.cos_lt_cos_of_nonneg_of_le_pi (by linarith) h2 h1
+  rw [Real.cos_add, Real.cos_add] at h
+  simp only [Real.cos_pi_div_two, Real.sin_pi_div_two] at h
+  linarith
+
+theorem rise_limit_val : rise_limit = 66.55 := by
+  unfold rise_limit; rw [aReduce_of_abs_lt (by norm_num)]; norm_num
 theorem aNeg_rise_limit : aNeg rise_limit = -66.55 := by
   rw [rise_limit_val]; unfold aNeg; exact aReduce_of_abs_lt (by norm_num)
 
